@@ -22,6 +22,11 @@ the first entry for a path, so `write` shadows. `remove_dir_all p` drops every e
 entries like any other (not followed). The result of `let _ = fs::remove_dir_all(..)` is ignored by the code; the model
 takes the removal to succeed (it does for every content the tool itself or the harness, running as root, can leave).
 
+**Selection.** Which buildpacks are selected, packaged (and in which order) and printed is decided from the workspace
+sources and the invocation directory alone (`selectionOf`): the package directory is *not* an input of that decision — it
+only says where the output directories are (`packageDirAbs`, `destStr`), wherever it lies relative to the sources (outside
+the workspace, the workspace root itself, an ancestor of buildpack directories, a buildpack's own directory …).
+
 **Pure part and effect of one loop iteration.** Nothing in the loop body reads the package directory: it reads the
 workspace sources and the id → packaged-directory map (the directory walk does not enter the package directory because of
 the ignore file the property's quantifier supplies). The model therefore computes, per buildpack in build order, a `Step`
@@ -308,6 +313,38 @@ def effectiveWorkspace (ws : Workspace) (standalone : List Str) (inv : Str) : Wo
       if bp.dir == d then some { bp with dir := [] }
       else if (d ++ ['/']).isPrefixOf bp.dir then some { bp with dir := bp.dir.drop (d.length + 1) }
       else none)⟩
+
+/-! ### the selection clause of `execute` -/
+
+structure Selection where
+  /-- the selected buildpacks (`root_nodes`) -/
+  roots : List String
+  /-- the ids packaged, in build order (`build_order`) -/
+  order : List String
+deriving DecidableEq, Repr
+
+/-- what `execute` selects and in which order it packages: `root_nodes` and `get_dependencies` over the graph of the
+workspace (C13's model). Neither `Config` (profile, target, `--package-dir`) nor the tree in the package directory is an
+input. -/
+def selectionOf (ws : Workspace) (inv : Str) : Except Err Selection :=
+  let bps := nodesOf ws
+  match toNodes bps with
+  | .error e => .error e
+  | .ok nodes =>
+    match DepGraph.createGraph nodes with
+    | .error d => .error (.missingDependency d)
+    | .ok g =>
+      let roots := rootIds ws inv
+      match DepGraph.getDependencies g roots with
+      | .error r => .error (.unknownRootNode r)
+      | .ok order =>
+        if order.isEmpty then .error .noBuildpacksFound
+        else .ok ⟨roots, (order.filterMap (fun i => bps[i]?)).map (·.id)⟩
+
+/-- the ids whose output directories are printed, in print order: the packaged ids sorted (`BTreeMap` iteration), those
+among the selected ones -/
+def printedIds (sel : Selection) : List String :=
+  (sortBy (fun a b => decide (a < b)) sel.order).filter (fun id => sel.roots.contains id)
 
 /-! ### `execute` -/
 
